@@ -37,6 +37,8 @@ PROBES = [
     ("iter.tuple", "var it = ([1], [2]).iter(); churn(); print(it.next()); churn(); print(it.next());"),
     ("iter.string", "var it = (\"a\" + \"é\").iter(); churn(); print(it.next()); print(it.next());"),
     ("iter.range.evicted", "var it = (100..103).iter(); { var i = 0; while i < 10 { var r = i..(i + 1); i = i + 1; } } churn(); print(it.next()); print(it.next());"),
+    ("for.range.evicted.and.block.reused", "var n = 0; for x in 0..3 { var i = 0; while i < 10 { var q = (i + 50)..(i + 60); i = i + 1; } n = n + 1; if n > 6 { print(\"runaway\"); break; } print(x); } print(n);"),
+    ("iter.range.evicted.and.block.reused", "var it = (100..103).iter(); { var i = 0; while i < 10 { var r = i..(i + 1); i = i + 1; } } var keep = []; { var i = 0; while i < 10 { keep.push((i + 500)..(i + 900)); i = i + 1; } } print(it.next()); print(it.next()); print(it.next()); print(it.next().derives(StopIter));"),
     ("range.evicted", "var r = 200..203; { var i = 0; while i < 10 { var q = i..(i + 1); i = i + 1; } } churn(); print(r); for x in r { print(x); }"),
     ("iter.adapters", "var it = [1, 2, 3].iter().map(|v| [v]).filter(|v| v[0] > 1); churn(); print(it.next()); churn(); print(it.collect());"),
     ("module.attributes", "import \"gcmod\"; churn(); print(gcmod.data); print(gcmod.getter());"),
